@@ -36,5 +36,12 @@ Definition run_c16 (orc : oracle) (s : sexp) : sexp :=
       | Some k, Some screen, Some scores, Some ids => of_result of_sel (select_next k screen scores ids)
       | _, _, _, _ => bad_input
       end
+  | SL [SZ 4; k; screen; ids; tables; flags] =>
+      (* as op 2, the chosen plate being revealed after the steps whose flag is 1 *)
+      match as_Z k, as_listof as_splate screen, as_Zs ids, as_listof as_scores tables, as_listof as_bool flags with
+      | Some k, Some screen, Some ids, Some tables, Some flags =>
+          of_result (of_list of_sel) (history_select_reveal k screen ids tables flags)
+      | _, _, _, _, _ => bad_input
+      end
   | _ => bad_input
   end.
